@@ -97,7 +97,8 @@ func LogRecord(record log.Record) *lpb.LogRecord {
 		Body:                 LogAttrValue(record.Body()),
 		Attributes:           make([]*cpb.KeyValue, 0, record.AttributesLen()),
 		Flags:                uint32(record.TraceFlags()),
-		// TODO: DroppedAttributesCount: /* ... */,
+		// nolint:gosec // The dropped count is never negative.
+		DroppedAttributesCount: uint32(record.DroppedAttributes()),
 	}
 	record.WalkAttributes(func(kv api.KeyValue) bool {
 		r.Attributes = append(r.Attributes, LogAttr(kv))
